@@ -25,7 +25,8 @@ ASSUMPTIONS = ['expected signatures are the generator\'s types rendered in the f
 MIN_NONTRIVIAL = 100
 REPORT_COUNTERS = ['valid_programs', 'accepted', 'signatures_checked', 'signatures_exact', 'values_checked', 'values_inhabit', 'corrupted_compiles',
                    'corruptions_rejected', 'orders_tried', 'CheckForError', 'TypeInferenceForStructure', 'other_engines_accepted']
-CORRUPTIONS = ['literal_of_other_type', 'variable_at_two_types', 'plus_on_str', 'concat_on_num', 'missing_field', 'list_vs_scalar']
+CORRUPTIONS = ['literal_of_other_type', 'variable_at_two_types', 'plus_on_str', 'concat_on_num', 'missing_field', 'list_vs_scalar',
+               'variable_at_two_columns', 'composite_at_two_columns', 'two_values_of_other_predicates']
 
 
 def plan(tier, seed):
@@ -160,6 +161,59 @@ def corrupt(prog, kind, rng):
       lit = ('in', V(w), V(rng.choice(ints)))
     elif kind == 'list_vs_scalar' and lists:
       lit = ('cmp', '==', V(w), ('bin', '+', V(rng.choice(lists)), N(1)))
+    if lit is None and kind in ('variable_at_two_columns', 'composite_at_two_columns'):
+      # a variable typed by one call is passed to a column of another predicate whose (ground) type differs; the clash
+      # only shows through the two predicates' signatures. composite_...: both types are lists / records
+      want_comp = kind == 'composite_at_two_columns'
+      vs = sorted(v for v, t in var_types.items() if t is not None and (isinstance(t, tuple) == want_comp))
+      rng.shuffle(vs)
+      for v in vs:
+        t = var_types[v]
+        targets = []
+        for q in prog['order']:
+          qm = prog['preds'][q]
+          if qm['kind'] not in ('ext', 'derived', 'fun') or q == r['pred'] or qm.get('made'):
+            continue
+          if prog['order'].index(q) >= prog['order'].index(r['pred']):
+            continue
+          for (c, ct), f in zip(qm['cols'], qm['fields']):
+            if ct != t and (isinstance(ct, tuple) == want_comp) and c != 'logica_value':
+              targets.append((q, c, f))
+        if not targets:
+          continue
+        q, c, f = rng.choice(targets)
+        qm = prog['preds'][q]
+        args = []
+        k = 0
+        for (c2, ct2), f2 in zip(qm['cols'], qm['fields']):
+          if c2 == 'logica_value':
+            continue
+          if c2 == c:
+            args.append((f2, V(v)))
+          elif f2 is None:
+            args.append((None, V('tw%d' % k)))     # positional arguments cannot be skipped
+            k += 1
+        lit = ('call', q, tuple(args))
+        break
+    if lit is None and kind == 'two_values_of_other_predicates':
+      # x == F(..), x == G(..) where the two functional values have different ground types: nothing in this rule
+      # names either type
+      funs = [q for q in prog['order'] if prog['preds'][q]['kind'] == 'fun' and prog['order'].index(q) < prog['order'].index(r['pred'])
+              and not any(isinstance(ct, tuple) for ct in [x[1] for x in prog['preds'][q]['cols'][:-1]])]
+      pairs = [(a, b) for a in funs for b in funs if prog['preds'][a]['value_type'] != prog['preds'][b]['value_type']]
+      if pairs:
+        a, b = rng.choice(pairs)
+
+        def fc(q):
+          qm = prog['preds'][q]
+          args = []
+          for (c2, ct2), f2 in zip(qm['cols'], qm['fields']):
+            if c2 == 'logica_value':
+              continue
+            cands = sorted(v for v, t in var_types.items() if t == ct2)
+            args.append((f2, V(rng.choice(cands)) if cands else (N(1) if ct2 == 'int' else S('a'))))
+          return ('fcall', q, tuple(args))
+        lit = ('and', (('cmp', '==', V(w), fc(a)), ('cmp', '==', V(w), fc(b))))
     if lit is None:
       continue
     nr = dict(r)
